@@ -213,3 +213,144 @@ pub fn same_cols(a: &Cols, b: &Cols, presence: bool) -> Option<String> {
 	}
 	None
 }
+
+fn width_of(ty: &str) -> usize {
+	match ty {
+		"u8" | "i8" => 1,
+		"u16" | "i16" => 2,
+		_ => 4,
+	}
+}
+
+/// The cell a leaf belongs to: the character's pre or post struct, or the start / end / item struct.
+fn cell_of(path: &str) -> Option<&str> {
+	for m in [".pre.", ".post."] {
+		if let Some(i) = path.find(m) {
+			return Some(&path[..i + m.len()]);
+		}
+	}
+	for m in ["start.", "end.", "item."] {
+		if path.starts_with(m) {
+			return Some(&path[..m.len()]);
+		}
+	}
+	None
+}
+
+/// C04's placement relation: every cell (row x character x pre|post, start, end, item) holds the
+/// payload of the event the model puts there -- compared as the multiset of the cell's bytes, so
+/// that a mix-up of fields INSIDE a cell (C03's business) is not reported here, while a value in
+/// the wrong row, port, character or struct is.  Frame ids, presence bits and item offsets are
+/// compared directly.
+pub fn compare_cells(exp: &ECols, act: &Cols, rows: Option<usize>) -> Option<String> {
+	use std::collections::BTreeMap;
+	let nitems_lim = match (rows, &exp.item_off) {
+		(Some(n), Some(off)) => Some(off[n.min(off.len() - 1)] as usize),
+		_ => None,
+	};
+	// ids
+	{
+		let e = &exp.leaves["id"];
+		let a = match act.leaves.get("id") {
+			Some(a) => a,
+			None => return Some("id column missing".into()),
+		};
+		let lim = rows.unwrap_or(e.vals.len());
+		if rows.is_none() && a.vals.len() != e.vals.len() {
+			return Some(format!("{} frame rows, expected {}", a.vals.len(), e.vals.len()));
+		}
+		if a.vals.len() < lim {
+			return Some(format!("{} frame rows, expected at least {}", a.vals.len(), lim));
+		}
+		for i in 0..lim {
+			if Some(a.vals[i]) != e.vals[i] {
+				return Some(format!("row {}: frame id {:#x}, expected {:#x}", i, a.vals[i], e.vals[i].unwrap()));
+			}
+		}
+	}
+	// group leaves by cell
+	let mut ecells: BTreeMap<&str, Vec<(&String, &ECol)>> = BTreeMap::new();
+	for (k, e) in &exp.leaves {
+		if let Some(c) = cell_of(k) {
+			ecells.entry(c).or_default().push((k, e));
+		}
+	}
+	let mut acells: BTreeMap<&str, Vec<(&String, &crate::cols::Col)>> = BTreeMap::new();
+	for (k, a) in &act.leaves {
+		if let Some(c) = cell_of(k) {
+			acells.entry(c).or_default().push((k, a));
+		}
+	}
+	for (cell, es) in &ecells {
+		let asv = match acells.get(cell) {
+			Some(v) => v,
+			None => return Some(format!("no columns for {}", cell)),
+		};
+		let elen = es[0].1.vals.len();
+		let lim = match rows {
+			None => elen,
+			Some(n) => {
+				if cell.starts_with("item.") {
+					nitems_lim.unwrap_or(0)
+				} else {
+					n
+				}
+			}
+		};
+		for (k, a) in asv {
+			if rows.is_none() && a.vals.len() != elen {
+				return Some(format!("column {}: {} entries, expected {}", k, a.vals.len(), elen));
+			}
+			if a.vals.len() < lim {
+				return Some(format!("column {}: {} entries, expected at least {}", k, a.vals.len(), lim));
+			}
+		}
+		for i in 0..lim {
+			if es.iter().any(|(_, e)| e.vals[i].is_none()) {
+				continue; // absent character: don't care
+			}
+			let mut eb: Vec<u8> = vec![];
+			for (_, e) in es {
+				let w = width_of(&e.ty);
+				let v = e.vals[i].unwrap();
+				for j in 0..w {
+					eb.push((v >> (8 * j)) as u8);
+				}
+			}
+			let mut ab: Vec<u8> = vec![];
+			for (_, a) in asv {
+				let w = width_of(&a.ty);
+				for j in 0..w {
+					ab.push((a.vals[i] >> (8 * j)) as u8);
+				}
+			}
+			eb.sort();
+			ab.sort();
+			if eb != ab {
+				return Some(format!("cell {} row {}: holds other data than the event the history puts there", cell, i));
+			}
+		}
+	}
+	for cell in acells.keys() {
+		if !ecells.contains_key(cell) {
+			return Some(format!("unexpected columns {}", cell));
+		}
+	}
+	// presence and item offsets: as in `compare`
+	let dummy = ECols {
+		leaves: Default::default(),
+		present: exp.present.clone(),
+		item_off: exp.item_off.clone(),
+	};
+	let adummy = Cols {
+		leaves: Default::default(),
+		present: act.present.clone(),
+		item_off: act.item_off.clone(),
+	};
+	compare(&dummy, &adummy, &CmpOpts { presence: true, rows, missing_ok_if_empty: false })
+}
+
+/// Exact comparison of the first `n` rows of `b` against `a` restricted likewise (real vs real).
+pub fn same_prefix(a: &Cols, b: &Cols, n: usize, presence: bool) -> Option<String> {
+	same_cols(&crate::cols::prefix(a, n), &crate::cols::prefix(b, n), presence)
+}
